@@ -422,6 +422,8 @@ def select(prop, thorough, rng):
         defs += [F.rand_def(rng, 'rc%d' % j, nsets=rng.choice([2, 2, 3]), kinds=kinds, maxrules=3, depth=1, tags=['C08'], empty_p=0.2) for j in range(nrand)]
         defs += [dyn_def(rng, 'dr%d' % j) for j in range(nrand // 3)]
         defs += [stale_family(rng, 'st%d' % j, qkinds=(['sw', 'swret'] if j % 2 == 0 else None)) for j in range(nrand // 3 + 2)]
+        # failures on the last character of the input with an Init `$` rule still to come
+        defs += [stale_family(rng, 'se%d' % j, eof=True, eof_kind=('ret' if j % 2 else 'tok')) for j in range(nrand // 3 + 2)]
     elif prop == 'C09':
         defs = list(cur)
         defs += [F.rand_def(rng, 'pg%d' % j, ctx_p=0.2, eof_p=0.15, tags=['C09']) for j in range(nrand)]
